@@ -46,10 +46,9 @@ func Parse(fontInfo *sfnt.Font, input string) (lookups gtab.LookupList, err erro
 		}
 	}
 
-	cmap, err := fontInfo.CMapTable.GetBest()
-	if err != nil {
-		return nil, err
-	}
+	// A font without a usable cmap table can still be described using glyph
+	// names and glyph indices; only quoted strings need the cmap.
+	cmap, _ := fontInfo.CMapTable.GetBest()
 
 	_, tokens := lex(input)
 	p := &parser{
@@ -1122,6 +1121,10 @@ func (p *parser) readGlyphList() []glyph.ID {
 			next = append(next, gid)
 
 		case itemString:
+			if p.cmap == nil {
+				p.backlog = append(p.backlog, item)
+				p.fatal("cannot use strings, font has no cmap table")
+			}
 			for r := range decodeString(item.val) {
 				gid := p.cmap.Lookup(r)
 				if gid == 0 {
